@@ -29,9 +29,10 @@ import (
 )
 
 type GPProperty struct {
-	ParamName string
-	TypeValue string
-	TypeType  string
+	ParamName  string
+	TypeValue  string
+	TypeType   string
+	Parameters []GPProperty // parameters of a function-typed property (interface methods)
 }
 
 type GPCall struct {
@@ -322,16 +323,46 @@ func (c *gpChecker) goNamesIn(props []GPProperty, name string) int {
 	return n
 }
 
-func (c *gpChecker) goParams(fn *gopygen.GoFunc, node *GPFunction, what string) {
-	for _, p := range fn.Params {
+// goParamList checks a written parameter list against the listed one: every named parameter exactly once under its
+// own name, every blank parameter (`_`) listed as a parameter named `_`, and the written arity.
+func (c *gpChecker) goParamList(fields []gopygen.GoField, got []GPProperty, what string) {
+	arity, blanks := 0, 0
+	for _, p := range fields {
 		for j, name := range p.Names {
+			arity++
+			if name == "_" {
+				blanks++
+				continue
+			}
 			sfx := ""
 			if j > 0 {
 				sfx = "/2nd+-name-of-multi-name-parameter"
 			}
-			c.once("go_param", c.goNamesIn(node.Parameters, name), "go/param", sfx, fmt.Sprintf("parameter %s of %s", name, what))
+			c.once("go_param", c.goNamesIn(got, name), "go/param", sfx, fmt.Sprintf("parameter %s of %s", name, what))
 		}
 	}
+	if blanks > 0 {
+		c.st.Planted["go_blank_param"] += blanks
+		if n := c.goNamesIn(got, "_"); n == blanks {
+			c.st.Matched["go_blank_param"] += blanks
+		} else {
+			c.bad("go/param-missing/blank-identifier-parameter", "%s declares %d parameter(s) named _, %d listed", what, blanks, n)
+		}
+	}
+	c.st.Planted["go_param_list"]++
+	if len(got) == arity {
+		c.st.Matched["go_param_list"]++
+	} else {
+		sfx := ""
+		if blanks > 0 {
+			sfx = "/list-with-blank-identifier-parameter"
+		}
+		c.bad("go/param-arity"+sfx, "%s is written with %d parameter(s), %d listed", what, arity, len(got))
+	}
+}
+
+func (c *gpChecker) goParams(fn *gopygen.GoFunc, node *GPFunction, what string) {
+	c.goParamList(fn.Params, node.Parameters, what)
 }
 
 func (c *gpChecker) goCalls(f *gopygen.GoFile, fn *gopygen.GoFunc, node *GPFunction, v gpGoView, what string) {
@@ -460,8 +491,27 @@ func (c *gpChecker) goFile(f *gopygen.GoFile, v gpGoView, flat bool) {
 		if c.times("go_struct", len(es), v.ms.wantOf(st.Name), "go/struct", sfx, what) {
 			own = v.ms.entryOf(st, es)
 		}
+		blankFields := 0
+		for _, fl := range st.Fields {
+			for _, name := range fl.Names {
+				if name == "_" {
+					blankFields++
+				}
+			}
+		}
+		if own >= 0 && blankFields > 0 {
+			c.st.Planted["go_blank_field"] += blankFields
+			if n := c.goNamesIn(v.types[own].InOutProperties, "_"); n == blankFields {
+				c.st.Matched["go_blank_field"] += blankFields
+			} else {
+				c.bad("go/field-missing/blank-identifier-field", "%s declares %d field(s) named _, %d listed", what, blankFields, n)
+			}
+		}
 		for _, fl := range st.Fields {
 			for j, name := range fl.Names {
+				if name == "_" {
+					continue
+				}
 				if own >= 0 {
 					fs := ""
 					if j > 0 {
@@ -478,6 +528,9 @@ func (c *gpChecker) goFile(f *gopygen.GoFile, v gpGoView, flat bool) {
 			rk := "/value-receiver"
 			if me.Recv.Pointer {
 				rk = "/pointer-receiver"
+			}
+			if me.AboveType {
+				rk += "/declared-above-its-receiver-type"
 			}
 			mwhat := fmt.Sprintf("method %s of %s", me.Name, what)
 			if own >= 0 {
@@ -511,7 +564,14 @@ func (c *gpChecker) goFile(f *gopygen.GoFile, v gpGoView, flat bool) {
 		}
 		for _, m := range it.Methods {
 			if own >= 0 {
-				c.once("go_iface_method", c.goNamesIn(v.types[own].InOutProperties, m.Name), "go/interface-method", "", fmt.Sprintf("method %s of %s", m.Name, what))
+				mwhat := fmt.Sprintf("method %s of %s", m.Name, what)
+				if c.once("go_iface_method", c.goNamesIn(v.types[own].InOutProperties, m.Name), "go/interface-method", "", mwhat) {
+					for _, p := range v.types[own].InOutProperties {
+						if p.ParamName == m.Name {
+							c.goParamList(m.Fields, p.Parameters, mwhat)
+						}
+					}
+				}
 			}
 			if n, where := propElsewhere(m.Name, it.Name, own); n > 0 {
 				c.bad("go/interface-method-under-other-type"+sfx, "method %s of %s is listed under %s", m.Name, what, where)
@@ -535,8 +595,14 @@ func (c *gpChecker) goFile(f *gopygen.GoFile, v gpGoView, flat bool) {
 				continue
 			}
 			c.st.Info["flat_unexported_functions_listed"]++
-		} else if !c.times("go_func", len(idxs), want, "go/function", "", what) {
-			continue
+		} else {
+			fsfx := ""
+			if fn.NoBody {
+				fsfx = "/declaration-without-body"
+			}
+			if !c.times("go_func", len(idxs), want, "go/function", fsfx, what) {
+				continue
+			}
 		}
 		own := v.ms.entryOf(fn, idxs)
 		if own < 0 {
@@ -563,7 +629,11 @@ func (c *gpChecker) goImports(f *gopygen.GoFile, imports []GPImport) {
 				alias = o.AsName == im.Alias
 			}
 		}
-		if c.once("go_import", n, "go/import", "", fmt.Sprintf("import %q", im.Path)) && alias {
+		isfx := ""
+		if im.Raw {
+			isfx = "/path-written-as-raw-string"
+		}
+		if c.once("go_import", n, "go/import", isfx, fmt.Sprintf("import %q", im.Path)) && alias {
 			c.st.Info["go_import_alias_as_written"]++
 		}
 	}
@@ -612,7 +682,11 @@ func CheckGoFlat(where string, files []*gopygen.GoFile, ds []GPDataStruct) ([]GP
 		for _, st := range f.Structs() {
 			p := gpPlanted{ptr: st}
 			for _, fl := range st.Fields {
-				p.members = append(p.members, fl.Names...)
+				for _, n := range fl.Names {
+					if n != "_" {
+						p.members = append(p.members, n)
+					}
+				}
 			}
 			for _, me := range st.Methods {
 				p.members = append(p.members, me.Name)
